@@ -22,13 +22,16 @@ pub struct Opts {
     pub nested_dir: bool,
     /// the output directory is a (not yet existing) directory of this name, given as raw bytes: a path is not text
     pub dir_name: Option<Vec<u8>>,
+    /// the environment the tool runs in: 0 inherited, 1 Turkish locale + far time zone, 2 empty environment,
+    /// 3 another working directory with a relative --output, 4 the options given in the opposite order
+    pub env: u8,
     /// a previous run into the same directory (history): its algorithm flag
     pub previous_run: Option<&'static str>,
 }
 
 impl Opts {
     fn base() -> Self {
-        Opts { alg: "", sans: vec![], cn: None, country: None, org: None, client: false, server: false, names: None, nested_dir: false, dir_name: None, previous_run: None }
+        Opts { alg: "", sans: vec![], cn: None, country: None, org: None, client: false, server: false, names: None, nested_dir: false, dir_name: None, env: 0, previous_run: None }
     }
 }
 
@@ -37,48 +40,40 @@ fn is_printable(s: &str) -> bool {
 }
 
 fn args_of(o: &Opts, dir: &std::path::Path, alg: &str) -> Vec<std::ffi::OsString> {
-    let mut a = args_of_text(o, alg);
-    a.insert(0, dir.as_os_str().to_os_string());
-    a.insert(0, "--output".into());
-    a
+    let mut groups: Vec<Vec<std::ffi::OsString>> = vec![vec!["--output".into(), dir.as_os_str().to_os_string()]];
+    groups.extend(arg_groups(o, alg).into_iter().map(|g| g.into_iter().map(Into::into).collect()));
+    if o.env == 4 {
+        groups.reverse();
+    }
+    groups.into_iter().flatten().collect()
 }
 
-fn args_of_text(o: &Opts, alg: &str) -> Vec<std::ffi::OsString> {
-    args_of_strings(o, alg).into_iter().map(Into::into).collect()
-}
-
-fn args_of_strings(o: &Opts, alg: &str) -> Vec<String> {
-    let mut a: Vec<String> = Vec::new();
+fn arg_groups(o: &Opts, alg: &str) -> Vec<Vec<String>> {
+    let mut a: Vec<Vec<String>> = Vec::new();
     if !alg.is_empty() {
-        a.push(alg.to_string());
+        a.push(vec![alg.to_string()]);
     }
     for s in &o.sans {
-        a.push("--san".into());
-        a.push(s.clone());
+        a.push(vec!["--san".into(), s.clone()]);
     }
     if let Some(c) = &o.cn {
-        a.push("--common-name".into());
-        a.push(c.clone());
+        a.push(vec!["--common-name".into(), c.clone()]);
     }
     if let Some(c) = &o.country {
-        a.push("--country-name".into());
-        a.push(c.clone());
+        a.push(vec!["--country-name".into(), c.clone()]);
     }
     if let Some(c) = &o.org {
-        a.push("--organization-name".into());
-        a.push(c.clone());
+        a.push(vec!["--organization-name".into(), c.clone()]);
     }
     if o.client {
-        a.push("--client-auth".into());
+        a.push(vec!["--client-auth".into()]);
     }
     if o.server {
-        a.push("--server-auth".into());
+        a.push(vec!["--server-auth".into()]);
     }
     if let Some((c, ca)) = &o.names {
-        a.push("--cert-file-name".into());
-        a.push(c.clone());
-        a.push("--ca-file-name".into());
-        a.push(ca.clone());
+        a.push(vec!["--cert-file-name".into(), c.clone()]);
+        a.push(vec!["--ca-file-name".into(), ca.clone()]);
     }
     a
 }
@@ -110,8 +105,27 @@ fn judge(o: &Opts, bin: &std::path::Path, backend: &str, scratch: &std::path::Pa
         let _ = std::process::Command::new(bin).args(&a).output();
         out.transitions += 1;
     }
-    let args = args_of(o, &dir, o.alg);
-    let r = std::process::Command::new(bin).args(&args).output();
+    let mut cmd = std::process::Command::new(bin);
+    match o.env {
+        1 => {
+            cmd.env("LC_ALL", "tr_TR.UTF-8").env("LANG", "tr_TR.UTF-8").env("LANGUAGE", "tr").env("TZ", "Pacific/Kiritimati");
+            cmd.args(args_of(o, &dir, o.alg));
+        }
+        2 => {
+            cmd.env_clear();
+            cmd.args(args_of(o, &dir, o.alg));
+        }
+        3 => {
+            // another working directory, the output directory given relative to it
+            let rel = std::path::Path::new(".").join(dir.strip_prefix(&top).unwrap_or(std::path::Path::new("")));
+            cmd.current_dir(&top);
+            cmd.args(args_of(o, &rel, o.alg));
+        }
+        _ => {
+            cmd.args(args_of(o, &dir, o.alg));
+        }
+    }
+    let r = cmd.output();
     out.transitions += 1;
     let r = match r {
         Ok(r) => r,
@@ -315,6 +329,13 @@ pub fn opt_space(backend: &str) -> Space<Opts> {
                 o.dir_name = Some(vec![0xff, b'k', 0xc3]);
             }),
     );
+    dims.push(
+        Dim::new("environment")
+            .v("Turkish locale and a far time zone", |o: &mut Opts| o.env = 1)
+            .v("empty environment", |o: &mut Opts| o.env = 2)
+            .v("another working directory, relative --output", |o: &mut Opts| o.env = 3)
+            .v("options in the opposite order", |o: &mut Opts| o.env = 4),
+    );
     dims.push(Dim::new("history").v("previous run with --ecdsa-p384", |o: &mut Opts| o.previous_run = Some("--ecdsa-p384")).v("previous run with --ed25519", |o: &mut Opts| o.previous_run = Some("--ed25519")));
     Space { base: Opts::base(), dims }
 }
@@ -337,7 +358,7 @@ pub fn run(prop: &str, tier: &str, replay: Option<&str>) -> i32 {
         }
         let space = opt_space(backend);
         let k = if thorough { 3 } else if backend == "ring" { 2 } else { 1 };
-        let sec = Section::new(&format!("cli/{}/levels", backend), &format!("every option state with exactly k <= {} options off their defaults ({} back end): algorithm, SAN lists, common name, country, organisation, purposes, base names, output directory, a previous run into the same directory", k, backend)).with_deadline(if thorough { 1100 } else { 50 });
+        let sec = Section::new(&format!("cli/{}/levels", backend), &format!("every option state with exactly k <= {} options off their defaults ({} back end): algorithm, SAN lists, common name, country, organisation, purposes, base names, output directory, environment (locale, time zone, empty environment, working directory, option order), a previous run into the same directory", k, backend)).with_deadline(if thorough { 1100 } else { 50 });
         run::levels(&sec, &space, k, &|o, _| judge(o, &bin, backend, &scratch, counter.fetch_add(1, std::sync::atomic::Ordering::Relaxed)));
         rep.add(sec);
     }
